@@ -1,13 +1,15 @@
 """C20 -- envelope parsing keeps the body byte-exact and the headers intact.
 
 Pure bounded-exhaustive enumeration of message bytes fed to the real ``Envelope.parse`` /
-``flatten`` / ``copy`` / pickle round trip / ``encode_7bit``.  Five exhaustively enumerated families:
+``flatten`` / ``copy`` / pickle round trip / ``encode_7bit``.  Six exhaustively enumerated families:
 
   S  strong claim, header-wide : EVERY header block (1..3 fields, names from the multiset
-     {Subject, X-A, X-A, To}, every assignment of value kinds) x {CRLF, LF} x {"Name: v", "Name:v"}
+     {Subject, X-A, X-A, To}, every assignment of value kinds) written "Name: value" x {CRLF, LF}
      x every body over {NUL, CR, LF, '.', 'a', 0xFF} up to a small length.
   B  strong claim, body-deep   : every one-field block and every (X-A, X-A) block x line ending x
-     separator x every LONGER body over the same alphabet (the lengths family S leaves out).
+     every LONGER body over the same alphabet (the lengths family S leaves out).
+  N  strong claim, "Name:value": the blocks of family B written without the optional space after the
+     colon (equally well-formed, RFC 5322 3.6.8) x line ending x bodies of length <= 1.
   W  weak claim                : every byte string over {'a', ':', ' ', CR, LF, 0xFF} up to length L.
   WL weak claim, long lines    : every sequence of long tokens (100 and 1000 byte runs, ...).
   E  7-bit conversion          : every UTF-8 text over {'e-acute', 'a', CRLF} (and over a scaled
@@ -40,7 +42,7 @@ EXHAUSTIVE = True
 
 BODY_ALPHABET = [b'\x00', b'\r', b'\n', b'.', b'a', b'\xff']
 WEAK_ALPHABET = [b'a', b':', b' ', b'\r', b'\n', b'\xff']
-WEAK_LONG_TOKENS = [b'a' * 100, b'a' * 1000, b'X-A: ', b' ', b'\r\n', b'\n', b'\xff' * 100, b':']
+WEAK_LONG_TOKENS = [b'a' * 100, b'a' * 1000, b'X-A: ', b' ', b'\r\n', b'\n', b'\xff\xff', b'\xff' * 100, b':']
 NAMES = ['Subject', 'X-A', 'To']
 NAME_MULTISET = ['Subject', 'X-A', 'X-A', 'To']
 KINDS = ['plain', 'folded', '8bit', 'long', 'long8']
@@ -66,15 +68,18 @@ STRICT_7BIT_LINE_ENDS = False
 
 NS = 32      # work units of family S
 NB = 32      # work units of family B
+NN = 16      # work units of family N
 NW = 16
+NWL = 8
 NE = 8
 
 
 def _tier(tier):
     q = (tier == 'quick')
     return {
-        's_body_max': 2 if q else 4,             # family S: bodies of length 0..s_body_max
+        's_body_max': 2 if q else 3,             # family S: bodies of length 0..s_body_max
         'b_body_max': 4 if q else 5,             # family B: bodies of length s_body_max+1..b_body_max
+        'n_body_max': 1,                         # family N: bodies of length 0..1
         'weak_max': 6 if q else 7,
         'weak_long_max': 4 if q else 5,
         'seven_max': 5 if q else 7,
@@ -86,12 +91,13 @@ def BOUNDS(tier):
     t = _tier(tier)
     return {
         'header_names': NAME_MULTISET, 'fields_per_block': '1..3', 'value_kinds': KINDS,
-        'line_endings': sorted(EOLS), 'separators': ['": "', '":"'],
+        'line_endings': sorted(EOLS),
+        'separators': '": " everywhere; ":" for the one-field and (X-A, X-A) blocks with bodies up to %d' % t['n_body_max'],
         'body_alphabet': ['NUL', 'CR', 'LF', '.', 'a', '0xFF'],
         'body_max_len_all_header_blocks': t['s_body_max'],
         'body_max_len_one_field_and_duplicate_blocks': t['b_body_max'],
         'weak_alphabet': ['a', ':', 'SP', 'CR', 'LF', '0xFF'], 'weak_max_len': t['weak_max'],
-        'weak_long_tokens': ['a*100', 'a*1000', 'X-A: ', 'SP', 'CRLF', 'LF', '0xFF*100', ':'],
+        'weak_long_tokens': ['a*100', 'a*1000', 'X-A: ', 'SP', 'CRLF', 'LF', '0xFF*2', '0xFF*100', ':'],
         'weak_long_max_tokens': t['weak_long_max'],
         '7bit_alphabet': ['U+00E9', 'a', 'CRLF'], '7bit_max_symbols': t['seven_max'],
         '7bit_scaled_alphabet': ['U+00E9*20', 'a*30', 'CRLF', 'SP U+00E9 SP'],
@@ -102,9 +108,11 @@ def BOUNDS(tier):
 
 RULE = ('strong claim: every sequence of 1..3 field names drawn from the multiset {Subject, X-A, X-A, To} '
         'x every assignment of value kinds {plain, folded, 8-bit, 78-byte line, folded 8-bit with two '
-        '78-byte lines} x {CRLF, LF} x {"Name: v", "Name:v"} x every body over {NUL, CR, LF, ".", "a", 0xFF} '
+        '78-byte lines} x {CRLF, LF} x every body over {NUL, CR, LF, ".", "a", 0xFF} '
         'up to body_max_len_all_header_blocks, plus every longer body up to '
-        'body_max_len_one_field_and_duplicate_blocks for all one-field and (X-A, X-A) blocks; weak claim: '
+        'body_max_len_one_field_and_duplicate_blocks for all one-field and (X-A, X-A) blocks, plus the same '
+        'one-field and (X-A, X-A) blocks written "Name:value" (no space after the colon) with bodies up to '
+        'length 1; weak claim: '
         'every byte string over {a, ":", SP, CR, LF, 0xFF} up to weak_max_len and every sequence of long '
         'tokens up to weak_long_max_tokens; 7-bit: every text over the two alphabets up to the symbol bounds '
         'x header set x {base64, quoted-printable, no encoder}.  A strong case is non-trivial when the body is '
@@ -233,8 +241,15 @@ def field_lines(name, kind, i, sep):
         parts = [b'u' + si + b'@b.c,', b'\tw@e.f'] if to else [b'foo' + si, b' bar']
     elif kind == '8bit':
         parts = [b'\xc3\xa9' + si + b' <u@b.c>'] if to else [b'h\xe9' + si]
+    elif kind == 'long' and to:
+        tail = si + b'@b.c'
+        parts = [b'u' * (MAX_LINE - len(n) - len(sep) - len(tail)) + tail]
     elif kind == 'long':
-        parts = [_pad_words(len(n) + len(sep), i, b'u@b.c,' if to else b'ab', MAX_LINE)]
+        parts = [_pad_words(len(n) + len(sep), i, b'ab', MAX_LINE)]
+    elif kind == 'long8' and to:
+        t1, t2 = b' <u' + si + b'@b.c>,', b' <w' + si + b'@e.f>'
+        parts = [b'\xe9' * (MAX_LINE - len(n) - len(sep) - len(t1)) + t1,
+                 b' ' + b'\xe9' * (MAX_LINE - 1 - len(t2)) + t2]
     elif kind == 'long8':
         parts = [_pad_words(len(n) + len(sep), i, b'\xe9b', MAX_LINE),
                  b' ' + _pad_words(1, i, b'c\xe9', MAX_LINE)]
@@ -242,13 +257,13 @@ def field_lines(name, kind, i, sep):
         raise ValueError(kind)
     lines = [n + sep + parts[0]] + parts[1:]
     for ln in lines:
-        assert len(ln) <= MAX_LINE, ln
+        assert len(ln) <= MAX_LINE and (not kind.startswith('long') or len(ln) == MAX_LINE), ln
         assert ln.strip(_WSP) != b'' and not ln.endswith((b' ', b'\t')), ln
     assert not parts[0].startswith((b' ', b'\t'))
     return lines, b''.join(parts)
 
 
-def block_variants(names_filter=None):
+def block_variants(names_filter=None, seps=('space',)):
     """Every (names, kinds, eol, sep) in a fixed order."""
     out = []
     for names in name_sequences():
@@ -256,7 +271,7 @@ def block_variants(names_filter=None):
             continue
         for kinds in itertools.product(KINDS, repeat=len(names)):
             for eol in ('CRLF', 'LF'):
-                for sep in ('space', 'nospace'):
+                for sep in seps:
                     out.append((names, kinds, eol, sep))
     return out
 
@@ -370,10 +385,13 @@ def check_strong(names, kinds, eol, sep, block, expected, body, obs=None):
     judge('parse', h, b)
 
     # 2. deep copy, 3. pickle round trip as the stores do it
+    the_copy = None
     for stage, fn in (('copy', lambda: env.copy()),
                       ('pickle', lambda: pickle.loads(pickle.dumps(env, pickle.HIGHEST_PROTOCOL)))):
         try:
             other = fn()
+            if stage == 'copy':
+                the_copy = other
             ho, bo = other.flatten()
         except Exception as e:
             out.append((_exc('strong', stage, e, hclass), '%s of the envelope parsed from %r raised %r' % (stage, data, e), rep))
@@ -407,7 +425,7 @@ def check_strong(names, kinds, eol, sep, block, expected, body, obs=None):
 
     # 5. the copy is deep: changing it leaves the original alone
     try:
-        c = env.copy()
+        c = the_copy if the_copy is not None else env.copy()
         c.prepend_header('X-Mutated', 'yes')
         del c.headers[names[-1]]
         c.message = b'mutated'
@@ -440,10 +458,12 @@ def weak_nontrivial(data):
 
 
 def weak_class(data):
-    if any(len(l) > 998 for l in re.split(br'\r\n|\n', data)):
-        return 'line-over-998'
-    if any(len(l) > MAX_LINE for l in re.split(br'\r\n|\n', data)):
-        return 'line-over-78'
+    lines = re.split(br'\r\n|\n', data)
+    for l in lines:
+        if len(l) > MAX_LINE and (_WF_START.match(l) or l[:1] in (b' ', b'\t')):
+            return 'over-long-header-line' + ('-8bit' if _F_8BIT.search(data) else '')
+    if any(len(l) > MAX_LINE for l in lines):
+        return 'over-long-line'
     if not _WF_START.match(data):
         return 'no-header-block'
     return 'odd-header-block'
@@ -572,7 +592,7 @@ def _b_filter(names):
 
 def configs(tier, seed):
     fams = [[{'fam': f, 'part': k, 'of': n} for k in range(n)]
-            for f, n in (('S', NS), ('B', NB), ('W', NW), ('WL', 4), ('E', NE))]
+            for f, n in (('S', NS), ('B', NB), ('N', NN), ('W', NW), ('WL', NWL), ('E', NE))]
     # interleaved so that the first samples the runner keeps come from every family
     return [c for row in itertools.zip_longest(*fams) for c in row if c is not None]
 
@@ -612,6 +632,8 @@ def run_config(cfg, tier, seed):
         _run_strong(cfg, t, res, block_variants(), 0, t['s_body_max'])
     elif fam == 'B':
         _run_strong(cfg, t, res, block_variants(_b_filter), t['s_body_max'] + 1, t['b_body_max'])
+    elif fam == 'N':
+        _run_strong(cfg, t, res, block_variants(_b_filter, ('nospace',)), 0, t['n_body_max'])
     elif fam in ('W', 'WL'):
         gen = (byte_strings(WEAK_ALPHABET, 0, t['weak_max']) if fam == 'W'
                else byte_strings(WEAK_LONG_TOKENS, 0, t['weak_long_max']))
